@@ -73,14 +73,21 @@ Inductive opk :=
 | AddMetaMut (kv : list (key * val)) (k : key) (v : val)
                                        (* d = {kv}; recording.add_metadata(d); d[k] = v  - the caller keeps using
                                           its dict after the request returned (see [legacy_late_view]) *)
-| Save.                                (* cassette.save_recording(rec)    A:89-95, T:60-67 *)
+| Save                                 (* cassette.save_recording(rec)    A:89-95, T:60-67 *)
+| Abort.                               (* cassette.abort_recording(rec)   T:52-59 (not overridden by the wrapper):
+                                          [recording.close()] on the recording it is given and nothing else.
+                                          Asynchronously that is the AsyncRecording: nothing is enqueued, the wrapped
+                                          cassette never hears of it; synchronously it is the wrapped recording. *)
 
 (** [o_idx]: position in its producer's workload (identification only);
     [o_fail]: the wrapped storage raises an Exception for this call, before touching anything *)
 Record op := Op { o_idx : nat; o_rec : nat; o_kind : opk; o_fail : bool }.
 
 Definition is_write (x : op) : bool :=
-  match o_kind x with Save => false | _ => true end.
+  match o_kind x with Save | Abort => false | _ => true end.
+
+Definition is_abort (x : op) : bool :=
+  match o_kind x with Abort => true | _ => false end.
 
 (** What the flusher executes for a request.  Since /repo commit ba7c02c, A:166 copies the caller's dict
     ([metadata = dict(metadata)]) before A:168 enqueues [lambda: self.wrapped_recording.add_metadata(metadata)]:
@@ -118,6 +125,8 @@ Definition apply_op (st : store) (x : op) : store * bool :=
            | Save =>                                                           (* T:66 _save_recording, T:67 close *)
                (Store (nm_set (o_rec x) (RecState (r_data r) (r_meta r) true) (live st))
                       (nm_set (o_rec x) (r_data r, r_meta r) (saved st)), true)
+           | Abort =>                                                          (* T:59 recording.close(), no assert *)
+               (Store (nm_set (o_rec x) (RecState (r_data r) (r_meta r) true) (live st)) (saved st), true)
            end
        end.
 
@@ -162,7 +171,8 @@ Record state := State {
   applied : list (top * bool);  (* operations that reached the wrapped cassette, with outcome *)
   wstore : store;               (* the wrapped cassette *)
   hist : list (top * bool)      (* ghost: every request issued so far, in issue order;
-                                   [true] = enqueued, [false] = refused at the caller (R:35/R:83) *)
+                                   [true] = enqueued, [false] = not enqueued: refused at the caller (R:35/R:83),
+                                   or an [Abort], which is carried out entirely at the caller (T:59) *)
 }.
 
 Definition init (nrec : nat) (w : list (list op)) : state :=
@@ -196,7 +206,8 @@ Definition enq (s : state) : list top := accepted (hist s).
 Definition mem_nat (r : nat) (l : list nat) : bool := existsb (Nat.eqb r) l.
 
 Inductive choice :=
-| CProduce (i : nat)    (* producer i: one complete set_data / add_metadata / save_recording call that enqueues  A:80-87 *)
+| CProduce (i : nat)    (* producer i: one complete set_data / add_metadata / save_recording call that enqueues  A:80-87;
+                           or one complete abort_recording call: closes the AsyncRecording, enqueues nothing, takes no lock  T:59 *)
 | CReject (i : nat)     (* producer i: a write on a closed AsyncRecording raises at the caller, nothing enqueued   R:35, R:83 *)
 | CCheck (b : bool)     (* flusher evaluates is_set() and reads b                                                  A:102 *)
 | CLock                 (* flusher acquires the lock                                                               A:118 *)
@@ -214,10 +225,14 @@ Inductive choice :=
 Definition step_fn_v (view : op -> op) (strict : bool) (c : choice) (s : state) : option state :=
   match c with
   | CProduce i =>
-      if lock_held (fl s) then None else
       match take_from i (pending s) with
       | None => None
       | Some (x, p') =>
+          if is_abort x
+          then Some (State p' (o_rec x :: aclosed s) (buffer s) (fl s) (stop s) (applied s) (wstore s)
+                           (hist s ++ [((i, x), false)]))
+          else
+          if lock_held (fl s) then None else
           if strict && is_write x && mem_nat (o_rec x) (aclosed s) then None else
           Some (State p' (if is_write x then aclosed s else o_rec x :: aclosed s)
                       (buffer s ++ [(i, x)]) (fl s) (stop s) (applied s) (wstore s)
